@@ -16,6 +16,15 @@ func vResetScenario(kind int) {
 	if kind == 1 {
 		f2.Relations(RelIdx(0, W.e[0].h)).Register()
 	}
+	// registration order with a hole: a third filter registered, then an earlier one unregistered
+	f3 := NewFilter1[vVel](W.w).Register()
+	switch vPick("unregister-before-reset", 3) {
+	case 1:
+		f1.Unregister()
+		f1 = NewFilter1[vPos](W.w).Register()
+	case 2:
+		f3.Unregister()
+	}
 	fired := 0
 	obsEvt := []EventType{OnCreateEntity, OnRemoveRelations, 7}[vPick("obs", 3)]
 	ob := Observe(obsEvt).Do(func(Entity) { fired++ }).Register(W.w)
@@ -62,7 +71,7 @@ func vResetScenario(kind int) {
 	vcheck("reset/tables-empty-relation-tables-free", vpure(func() bool { return okTables }))
 	vcheck("reset/inv", vpure(func() bool { return invWorld(W.w) && invRelations(W.w) && invZero(W) }))
 	// filters, observers, resources gone; can be registered again
-	vcheck("reset/filters-unregistered", len(s.cache.filters) == 0 && len(s.cache.indices) == 0 && f1.filter.cache == maxCacheID && f2.filter.cache == maxCacheID)
+	vcheck("reset/filters-unregistered", len(s.cache.filters) == 0 && len(s.cache.indices) == 0 && f1.filter.cache == maxCacheID && f2.filter.cache == maxCacheID && f3.filter.cache == maxCacheID)
 	vcheck("reset/observer-unregistered", ob.id == maxObserverID && !s.observers.hasObservers[obsEvt] && s.observers.totalCount == 0)
 	vcheck("reset/resources-removed", !res.Has())
 	vcheck("reset/unlocked", !W.w.IsLocked())
@@ -83,9 +92,16 @@ func vResetScenario(kind int) {
 	W.w.RemoveEntity(e0)
 	W.w.Event(7).Emit(Entity{})
 	vcheck("reset/observer-never-fires-again", fired == 0)
-	vcheck("reset/re-register-ok", !vpanics(func() { f1.Register(); ob.Register(W.w); res.Add(&vRes{2}) }))
+	vcheck("reset/re-register-ok", !vpanics(func() { f3.Register(); f1.Register(); ob.Register(W.w); res.Add(&vRes{2}) }))
+	qn := 0
+	q3 := f3.Query()
+	for q3.Next() {
+		qn++
+	}
+	vcheck("reset/re-registered-filter-queries-its-own-entry", qn == 0 && !W.w.IsLocked())
 	ob.Unregister(W.w)
 	f1.Unregister()
+	f3.Unregister()
 	// the world is reusable: later operations behave as on a new world (model-based, as C01)
 	W.n = 0
 	if vPick("shrink-after-reset", 2) == 1 {
